@@ -42,7 +42,7 @@ func TestC05(t *testing.T) {
 			}
 			return f
 		},
-		Assumptions: []string{"a deadlock is declared only for the structural signature described in DESIGN.md 2.1 (MemDB write lock wanted under an open MemDB iterator); any other overrun is reported as inconclusive"},
+		Assumptions: []string{"a deadlock is declared only for the structural signature described in DESIGN.md 2.1 (MemDB write lock wanted under an open MemDB iterator); a blocker still running after 21 watchdog periods (63 s against milliseconds) with a goroutine inside it is reported as non-termination; an overrun without that is inconclusive"},
 	}).Main(t)
 }
 
